@@ -1,7 +1,7 @@
 """C11 - Editing operations change only what they document and preserve everything else (structural clauses)."""
 from __future__ import annotations
 
-from . import scopes, lib_mem, lib_kind
+from . import scopes, lib_mem, lib_kind, lib_kind3, lib_kind4
 from . import lib_py, lib_schema, lib_module
 
 LEVEL = "other"
@@ -24,6 +24,8 @@ def run(ctx):
     lib_py.kw_forward(ctx, py, mods=("trees", "tables"), only=ps)
     lib_py.unused_params(ctx, py, mods=("trees", "tables", "util", "intervals"), only=lambda m, q: ps(m, q) or m in ("intervals",))
     lib_kind.py_lints(ctx, py, mods=("trees", "tables", "util", "intervals"), only=lambda m, q: ps(m, q) or m in ("intervals",))
+    lib_kind3.shared_instance_escape(ctx, py)
+    lib_kind4.shift_kind(ctx, py)
     lib_py.ll_positional(ctx, py, P, only=ps)
     lib_schema.argname(ctx, P, funcs=ced)
     lib_schema.row_forwarding(ctx, P, funcs=ced)
